@@ -44,6 +44,14 @@ def run(ctx: Any, prog: Program) -> None:
                         'InstanceFile.parse() normalising the freshly parsed template once at load time (before any collapse)']
     ctx.assumptions += ['C09 (copies are deep) for the objects produced by .copy()', 'C04 for the rotation algebra behind `@`']
     ctx.rule('C17.N1', 'collapse_one never mutates the template and only adds copies to the target map', floor=6)
+    # per-object state that methods change in place must not be a class-level container shared by every instance (see engine.model)
+    from engine.model import shared_mutable_class_attrs as _smca
+    for _m in (ins,):
+        _hits = _smca(_m.tree, [c.name for c in _m.tree.body if isinstance(c, ast.ClassDef)])
+        for _cn, _attr, _st in _hits:
+            ctx.check('C17.N1', False, _m, _st, f'{_cn}.{_attr} is a class-level container (`{U(_st.value)[:30]}`) that methods change in place and no __init__ assigns: all {_cn} objects share it, so one collapse changes what the next one does',
+                      func=_cn, text=f'{_cn}.{_attr} is per-object state')
+        ctx.check('C17.N1', True, _m, _m.tree, f'{len(_hits)} shared class-level containers in {_m.relpath}', func='<module>', text=f'{_m.relpath}: class-level containers examined')
     ctx.rule('C17.N2', 'collapse_all removes each instance entity before collapsing it and is bounded by recur_limit', floor=4)
     ctx.rule('C17.N3', 'positions are rotated then translated; directions and angles are only rotated', floor=12)
     ctx.rule('C17.N5', 'exactly the visible template objects are collapsed: skipped iff hidden or not vis_shown (when visgroups are stripped)', floor=4)
